@@ -867,6 +867,22 @@ CONTEXTS = {
 }
 
 
+def op_parsers(px, lv):
+    """The operator parsers of one level of the chain: functions of the parser crate that take the tokens (and the symbol
+    table) and return a BinOp, nested in the level function or called / passed along by it (its family)."""
+    f = px.facts
+    out = []
+    for b in f.crates[PAR]["bodies"]:
+        if b["kind"] == "Fn" and "thir" in b and "BinOp)" in b.get("ret", "") and len(b.get("params") or []) in (1, 2) and b["path"].startswith(lv + "::"):
+            out.append(b)
+    info = px.info.get(lv) or {}
+    cands = [f.bodies.get(info["opfn"])] if info.get("kind") == "fold" and info.get("opfn") else list(px.family(lv))
+    for b in cands:
+        if b is not None and b["kind"] == "Fn" and "thir" in b and "BinOp)" in b.get("ret", "") and len(b.get("params") or []) in (1, 2) and b not in out:
+            out.append(b)
+    return out
+
+
 def terminator_exclusions(px, fm, lx):
     """Terminator variant -> operators the parser does not read while that terminator is in force. Every operator
     parser of the level chain (functions of rssl_parser that take the tokens and the symbol table and return a BinOp)
@@ -876,8 +892,7 @@ def terminator_exclusions(px, fm, lx):
     terms = f.variants("Terminator", PAR)
     if not terms or "Standard" not in terms:
         return None
-    parsers = [b for b in f.crates[PAR]["bodies"] if b["kind"] == "Fn" and "BinOp)" in b.get("ret", "") and len(b.get("params") or []) in (1, 2)
-               and any(b["path"].startswith(lv + "::") for lv in px.chain)]
+    parsers = [b for lv in px.chain for b in op_parsers(px, lv)]
     if not parsers:
         return None
     ip = I.Interp(f, max_depth=5)
@@ -1308,8 +1323,52 @@ def first_arm(m, seq):
     return None if any_tok else "nomatch"
 
 
+def eval_parse_op(px, fm, lx):
+    """{operator: (level, BinOp read)}: the operator parsers of the level chain (see terminator_exclusions) evaluated by the
+    reader under Terminator::Standard on the lexed spelling of each binary operator followed by an operand, tightest
+    level first (an inner level takes its operator before an outer one sees it). None when one is not readable."""
+    f = px.facts
+    by_level = {lv: op_parsers(px, lv) for lv in px.chain}
+    if sum(len(v) for v in by_level.values()) < 5:
+        return None
+    ip = I.Interp(f, max_depth=5)
+
+    def tok(k, fb):
+        return I.Enum("LexToken", None, {"0": I.Enum("Token", k, {} if fb is None else {"0": I.Enum("FollowedBy", fb)}), "1": I.Opaque("location")})
+    out = {}
+    for op in fm.bi:
+        text = fm.bin_text.get(op)
+        lt = lx.lex(text + " ") if text else None
+        if not lt:
+            continue
+        toks = [tok(k, fb) for k, fb in lt] + [tok("Id", None)]
+        out[op] = (None, None)
+        for lv in reversed(px.chain):
+            hit = None
+            for b in by_level[lv]:
+                try:
+                    r = ip.apply(b, [list(toks), I.Enum("SymbolTable", None, {"terminator": I.Enum("Terminator", "Standard")})][:len(b["params"])])
+                except I.Unknown:
+                    return None
+                if isinstance(r, I.Enum) and r.variant == "Ok" and isinstance(r.fields["0"], tuple) and isinstance(r.fields["0"][1], I.Enum):
+                    rest = r.fields["0"][0]
+                    if not (isinstance(rest, list) and len(rest) == 1):
+                        # the operator parser left part of the spelling unread: the operand parser sees operator characters
+                        hit = (lv, "%s followed by %d unread operator token(s)" % (r.fields["0"][1].variant, (len(rest) - 1) if isinstance(rest, list) else -1))
+                    else:
+                        hit = (lv, r.fields["0"][1].variant)
+                    break
+            if hit:
+                out[op] = hit
+                break
+    return out
+
+
 def rule_optext(chk, fm, px, lx):
     # binary operators
+    table = eval_parse_op(px, fm, lx)
+    if table is None:
+        chk.note("C09.optext: the operator parsers are not readable; the arm-by-arm simulation decides")
     for op in fm.bi:
         text = fm.bin_text.get(op)
         key = "C09.optext/Binary::" + op
@@ -1320,7 +1379,7 @@ def rule_optext(chk, fm, px, lx):
         if toks is None:
             chk.ob(key, False, "spelling %r does not lex with the lexer's symbol table" % text, where(fm.binop_fn))
             continue
-        path, got = sim_parse_op(px, toks)
+        path, got = table[op] if table is not None and op in table else sim_parse_op(px, toks)
         want_level = px.nodes.get(("BinaryOperation", op), {}).get("fn")
         ok = got == op
         chk.ob(key, ok, "%r -> %s -> %s at %s" % (text, [t for t, _ in toks], got, short(path or "?")) if ok else
